@@ -439,6 +439,18 @@ class QGen:
             return self.aggregate(scope, fuel)
         if k == "ifexp":
             c = self.boolean(scope, fuel - 1)
+            if self.chance(1, 3):
+                # a test that needs statements of its own (a loop): an aggregate, a Range count or a First()
+                self.noflat += 1
+                r = self.numseq(scope, 0)
+                self.noflat -= 1
+                if r is not None:
+                    how = self.weighted([(3, "count"), (2, "sum"), (2, "first")] if (f.first and not self.safe) else [(3, "count"), (2, "sum")])
+                    self.labels.add("ifexp-test-with-statements")
+                    if how == "first":
+                        self.labels.add("First")
+                    c = {"count": f"({r[0]}.Count() > {self.pick(['0', '1', '2'])})", "sum": f"({r[0]}.Sum() > {self.pick(['0', '1.5', '10'])})",
+                         "first": f"({r[0]}.First() > {self.pick(['0', '1.5', '10'])})"}[how]
             a, ka = self.num(scope, fuel - 1)
             b, kb = self.num(scope, fuel - 1)
             self.labels.add("ifexp")
